@@ -149,6 +149,12 @@ func c10Staged(c *core.Case, o *core.Outcome) {
 		startGiven := r.IntN(4) == 0
 		var startPtr *time.Time
 		base := time.Date(2024, 3, 1+r.IntN(20), r.IntN(24), r.IntN(60), r.IntN(60), r.IntN(1e9), time.UTC)
+		future := false
+		if startGiven && r.IntN(3) == 0 {
+			// a start that has not been reached yet by the wall clock (a run scheduled for later, synthetic instants)
+			base = time.Date(2090+r.IntN(100), time.Month(1+r.IntN(12)), 1+r.IntN(28), r.IntN(24), r.IntN(60), r.IntN(60), r.IntN(1e9), time.UTC)
+			future = true
+		}
 		if startGiven {
 			b := base
 			startPtr = &b
@@ -252,7 +258,7 @@ func c10Staged(c *core.Case, o *core.Outcome) {
 		o.AddObs("profiles", 1)
 		if nontrivial {
 			o.AddObs("profiles_nontrivial", 1)
-			o.Sig("staged:n=%d:zero=%v:desc=%v:startgiven=%v:ends=%v:padded=%v:previewed=%v", n, hasZero, hasDesc, startGiven, endsQueried, padded, previewed)
+			o.Sig("staged:n=%d:zero=%v:desc=%v:startgiven=%v:ends=%v:padded=%v:previewed=%v:future=%v", n, hasZero, hasDesc, startGiven, endsQueried, padded, previewed, future)
 		}
 		if i == 0 {
 			o.Sample = map[string]any{"stages": stg, "queries": len(offs), "total": total.String(), "start_given": startGiven}
